@@ -30,11 +30,28 @@ def tree_shapes(draw, names=("a", "b", "c"), depth=3, budget=12):
     return out
 
 
+def fresh_ident(draw, nxt, taken):
+    """A new identity (ino, dev).  One in five re-uses the inode NUMBER of an identity already around (the root's, an
+    ancestor's, an old entry's) on another device - a tree that spans mount points; (ino, dev) stays unique."""
+    if taken and draw(st.integers(0, 4)) == 0:
+        base = draw(st.sampled_from(sorted(taken)))
+        devs = [d for d in (1, 2, 3) if (base[0], d) not in taken]
+        if devs:
+            return (base[0], draw(st.sampled_from(devs)))
+    ident = (nxt[0], draw(DEV))
+    nxt[0] += 1
+    return ident
+
+
 def first_tree(draw, **kw):
     sh1 = draw(tree_shapes(**kw))
     t1 = {"": ("d", 1000, 1, 0, 0)}
-    for j, p in enumerate(sorted(sh1)):
-        t1[p] = (sh1[p], j + 1, draw(DEV), draw(two), draw(two))
+    taken = {(1000, 1)}
+    nxt = [1]
+    for p in sorted(sh1):
+        ident = fresh_ident(draw, nxt, taken)
+        taken.add(ident)
+        t1[p] = (sh1[p], ident[0], ident[1], draw(two), draw(two))
     return t1
 
 
@@ -77,9 +94,8 @@ def next_tree(draw, t1, names=("a", "b", "c"), depth=3, **kw):
             cands = sorted(i for i in set(old_ids.values()) if i not in used)
             if cands:
                 ident = draw(st.sampled_from(cands))
-        if ident is None or ident[0] in {u[0] for u in used}:
-            ident = (nxt[0], draw(DEV))
-            nxt[0] += 1
+        if ident is None:
+            ident = fresh_ident(draw, nxt, used | set(old_ids.values()) | {(rootv[1], rootv[2])})
         used.add(ident)
         src = [q for q, i in old_ids.items() if i == ident]
         if draw(st.integers(0, 3)) == 0 or not src:
